@@ -694,3 +694,98 @@ func SpecContains(s string, sub string) bool { return false }
 //@   set outInCache = result after call IsValidOffset
 //@   assert at call pSync: continues_from_the_cache_end_only_if_the_cache_serves_the_target_position: offset.RunId != "?" ==> (offset.Offset == outSp.Offset && offset.RunId == outSp.RunId) || (offset.Offset == locSp.Offset && offset.RunId == locSp.RunId && (outInCache || outSp.RunId == "?"))
 //@   assert at call SetRunId: refused_or_unusable_cache_is_deleted_before_it_is_relabelled: isFullSync || clearLocal ==> chCleared
+
+// ---- leader/follower: a follower's copy never mixes two replication histories (C16) --------
+// The follower's cache as an abstract object:
+//   chId     the replication id its data is labelled with ("" = no data)
+//   chRight  the offset where its data ends (meaningful while it holds data)
+//   chEmpty  it holds no data (a label alone is not data)
+// A follower cannot join two histories, so relabelling data of one id as another id is what the
+// property forbids: it is the [C16] precondition of SetRunId at the follower's call sites.
+//@ func Channel.RunId(self) (r)
+//@   trusted abstract cache
+//@   ghost var chId string
+//@   ghost var chRight mathint
+//@   ghost var chEmpty bool
+//@   ensures label: r == chId
+//@ func Channel.StartPoint(self, ids) (sp, err)
+//@   trusted abstract cache: selects the data of one of the given ids if it has some (no relabelling), reports where it ends
+//@   modifies chId, chRight
+//@   ensures position: err == nil && sp.RunId != "?" ==> sp.RunId == chId && sp.Offset == chRight
+//@   ensures same_label_or_the_reported_one: err == nil ==> chId == old(chId) || chId == sp.RunId
+//@   ensures a_single_id_selects_only_itself: len(ids) == 1 ==> chId == old(chId) || chId == ids[0]
+//@   ensures selecting_adds_no_data: old(chEmpty) && chId == old(chId) ==> chEmpty
+//@   ensures unlabelled_means_nothing_to_report: err == nil && sp.RunId == "?" ==> chId == "" || chEmpty
+//@   ensures reading_moves_nothing: chId == old(chId) ==> chRight == old(chRight) && chEmpty == old(chEmpty)
+//@   ensures unlabelled_cache_is_empty: chId == "" ==> chEmpty
+//@ func Channel.DelRunId(self, id) (err)
+//@   trusted abstract cache: deletes the data labelled id
+//@   modifies chId, chEmpty
+//@   ensures deleted: err == nil && id == old(chId) ==> chId == "" && chEmpty
+//@   ensures others_untouched: id != old(chId) || err != nil ==> chId == old(chId) && chEmpty == old(chEmpty)
+//@   ensures unlabelled_cache_is_empty: chId == "" ==> chEmpty
+//@ func Channel.SetRunId(self, id) (err)
+//@   trusted abstract cache: labels the cache with id - existing data of another label is RENAMED to id
+//@   requires no_data_of_another_history_is_relabelled [C16]: chId == "" || chId == id
+//@   modifies chId
+//@   ensures labelled: err == nil ==> chId == id
+//@   ensures kept_on_error: err != nil ==> chId == old(chId)
+//@   ensures a_label_is_not_data: chEmpty == old(chEmpty)
+//@   requires unlabelled_cache_is_empty [C16]: chId == "" ==> chEmpty
+//@ func Channel.NewAofWritter(self, r, offset) (w, err)
+//@   trusted abstract cache: appends a log segment that starts at offset
+//@   requires appended_where_the_copy_ends [C16]: chId == "" || chEmpty || offset == chRight
+//@ func Channel.NewRdbWriter(self, r, offset, size) (w, err)
+//@   trusted abstract cache: stores a snapshot at offset
+//@   requires snapshot_only_into_an_empty_copy [C16]: chId == "" || chEmpty
+
+//@ func StartPoint.IsValid
+//@   inline
+
+//@ func pkg/api/golang.SyncResponse.GetOffset(x) (r)
+//@   trusted generated accessor
+//@   modifies nothing
+//@   ensures field: x != nil ==> r == x.Offset
+//@ func pkg/api/golang.SyncResponse.GetSize(x) (r)
+//@   trusted generated accessor
+//@   modifies nothing
+//@   ensures field: x != nil ==> r == x.Size
+//@ func pkg/api/golang.SyncResponse.GetMeta(x) (r)
+//@   trusted generated accessor
+//@   modifies nothing
+//@ func pkg/api/golang.SyncResponse_Meta.GetAof(x) (r)
+//@   trusted generated accessor
+//@   modifies nothing
+//@ func pkg/sync.NewWaitCloserFromParent(parent, f) (r)
+//@   trusted frame: allocates a wait object
+//@ func pipe.NewSize(n) (r, w)
+//@   trusted frame: allocates a pipe
+//@ func bufio.NewReaderSize(rd, size) (r)
+//@   trusted frame: allocates a reader
+
+//@ func ReplicaFollower.preSync
+//@   arith int
+//@   properties C16
+//@   replay syncer_replicaFollower
+//@   requires nonnil: rf != nil && rf.channel != nil
+//@   modifies heap, chId, chRight, chEmpty
+//@   ensures asks_under_the_leaders_id: err == nil ==> sp.RunId == leaderSp.RunId
+//@   ensures copy_is_labelled_with_the_leaders_history: err == nil ==> chId == leaderSp.RunId
+//@   ensures asks_from_where_the_copy_ends_or_with_an_empty_copy: err == nil ==> sp.Offset == chRight || (chEmpty && sp.Offset == leaderSp.Offset)
+
+//@ func ReplicaFollower.rdbSync
+//@   arith int
+//@   properties C16
+//@   requires nonnil: rf != nil && rf.channel != nil && resp != nil
+//@   requires copy_is_of_this_history: chId == followerSp.RunId
+//@   modifies heap, chId, chRight, chEmpty
+
+//@ func ReplicaFollower.aofSync
+//@   arith int
+//@   properties C16
+//@   replay syncer_replicaFollower
+//@   requires nonnil: rf != nil && rf.channel != nil && resp != nil
+//@   requires copy_is_of_this_history: chId == followerSp.RunId
+//@   requires asked_from_where_the_copy_ends_or_with_an_empty_copy: followerSp.Offset == chRight || chEmpty
+//@   assume leader_answers_at_or_after_the_end_of_the_copy: chId == followerSp.RunId && !chEmpty ==> resp.Offset >= chRight
+//@   modifies heap, chId, chRight, chEmpty
